@@ -5,6 +5,7 @@ observation. The harness prints the same lines from the real library; `diff` is 
 -/
 import MRL.Model.Disk
 import MRL.Proofs.Journal
+import MRL.Model.FileName
 
 open MRL
 
@@ -41,6 +42,7 @@ def parsePayload (tok : String) : Bytes :=
   match tok.splitOn ":" with
   | ["g", len, seed] => genPayload len.toNat! seed.toNat!
   | ["x", h] => unhex h
+  | ["z", n] => zeros n.toNat!
   | _ => []
 
 def fnvS (bs : Bytes) : String := toString (fnv64 bs).toNat
@@ -252,6 +254,47 @@ def runOp (msz : Nat) (jc : Bool) (st : St) (toks : List String) : St × List St
       (st1.absorb es, [outcomeS out, effLine es] ++ (if st.journalOk && !ok then ["J journal-invariant-broken"] else []))
     | _, _ => (st, ["? bad-op"])
 
+/-! ### codec-only commands (bytes campaign, hook H4) -/
+
+def padBlocks (data : Bytes) : Bytes :=
+  let b := Consts.BLOCK
+  let r := data.length % b
+  data ++ zeros (if r = 0 then 0 else b - r) ++ zeros b
+
+def readBack (data : Bytes) (withEnd : Bool) : String :=
+  let b := Consts.BLOCK
+  match fileBlocks geom 0 data 1 0 (data.length / b) with
+  | [] => "N -"
+  | b0 :: rest =>
+    match scanBlocks geom none 1 0 b0 0 rest with
+    | none => "N io"
+    | some (evs, e, _) =>
+      let recs := assemble { within := false, buf := [], attr := 0 } evs
+      let parts := recs.map fun r => match r with
+        | .entry _ bytes => s!"e:{bytes.length}:{fnvS bytes}"
+        | .corrupt => "corrupt"
+      if withEnd then s!"N {joinS "," parts} end={e.idx * b + e.cursor}" else s!"N {joinS "," parts}"
+
+def codecLines (entries : List Bytes) : List String :=
+  let rec go (c : Nat) (hc : c < geom.B) : List Bytes → List Bytes × List Nat
+    | [] => ([], [])
+    | e :: es =>
+      let bufs := MRL.writeEntry geom c e hc
+      let n := totalLen bufs
+      let (bs, ns) := go ((c + n) % geom.B) (Nat.mod_lt _ (Nat.lt_trans (Nat.succ_pos _) geom.hB)) es
+      (bufs ++ bs, n :: ns)
+  let (bufs, counts) := go 0 (Nat.lt_trans (Nat.succ_pos _) geom.hB) entries
+  let flat := bufs.flatten
+  [s!"B total={flat.length} fnv={fnvS flat} counts={joinS "," (counts.map toString)}", readBack (padBlocks flat) true]
+
+def decodeLine (bytes : Bytes) : String :=
+  match Entry.decode bytes with
+  | none => "K none"
+  | some (.append q pos recs) => s!"K 4 q={hex q} pos={pos} recs={joinS "," (recs.map recS)}"
+  | some (.truncate q pos) => s!"K 1 q={hex q} pos={pos} recs=-"
+  | some (.touch q pos) => s!"K 2 q={hex q} pos={pos} recs=-"
+  | some (.delete q pos) => s!"K 3 q={hex q} pos={pos} recs=-"
+
 structure Top where
   msz : Nat := Consts.META_SIZE
   /-- check the journal invariant after every call (`option jcheck` line; quadratic) -/
@@ -280,6 +323,10 @@ def runLine (top : Top) (line : String) : Top × List String :=
   | "meta" :: n :: _ => ({ top with msz := n.toNat! }, [])
   | "option" :: "jcheck" :: _ => ({ top with jc := true }, [])
   | "crash" :: _ => runCrash top toks
+  | "codec" :: rest => (top, codecLines (rest.map parsePayload))
+  | "rawread" :: rest => (top, [readBack (padBlocks (rest.map parsePayload).flatten) false])
+  | "decode" :: d :: _ => (top, [decodeLine (parsePayload d)])
+  | "fname" :: d :: _ => (top, [match parseFileName (parsePayload d) with | some n => s!"M {n}" | none => "M -"])
   | t :: rest =>
     if t.startsWith "c:" then
       let (s, out) := runOp top.msz false top.side ((t.drop 2).toString :: rest)
